@@ -506,10 +506,28 @@ func (p *Plugin) appendIndexName(outBuf []byte, event *pipeline.Event) []byte {
 			if value == "" {
 				value = "not_set"
 			}
-			outBuf = append(outBuf, value...)
+			outBuf = appendEscaped(outBuf, value)
 		}
 	}
 	outBuf = append(outBuf, "\"}}"...)
+	return outBuf
+}
+
+// appendEscaped appends s as the content of a JSON string literal:
+// the index name is placed between quotes in the action line of the bulk request.
+func appendEscaped(outBuf []byte, s string) []byte {
+	const hex = "0123456789abcdef"
+	for i := 0; i < len(s); i++ {
+		c := s[i]
+		switch {
+		case c == '"' || c == '\\':
+			outBuf = append(outBuf, '\\', c)
+		case c < 0x20:
+			outBuf = append(outBuf, '\\', 'u', '0', '0', hex[c>>4], hex[c&0xf])
+		default:
+			outBuf = append(outBuf, c)
+		}
+	}
 	return outBuf
 }
 
